@@ -630,6 +630,13 @@ impl TableSubj {
     }
 }
 
+/// does the SLLBI description contain a list-setter call with a raw index beyond its list?
+fn sysloc_has_raw_oor(op: &Op) -> bool {
+    let i = op.arg(4) % 301;
+    let t = op.arg(5) % 301;
+    op.s.iter().any(|o| o.arg(2) == 1 && ((o.k == K::LocSetInit && o.arg(0) >= i) || (o.k == K::LocSetTarget && o.arg(0) >= t)))
+}
+
 /// Is it legitimate for the construction of the entry described by `op` to be refused?
 fn ctor_refusal_expected(op: &Op) -> bool {
     let bad = |d: u64, f: u64| (d as u8) >= 32 || (f as u8) >= 8;
@@ -701,6 +708,11 @@ impl Subject for TableSubj {
                 return Applied::ok();
             }
             Err(e) => {
+                if op.k == K::HmSysLoc && sysloc_has_raw_oor(op) {
+                    // an out-of-range proximity-domain list index was refused: expected
+                    cx.probe("fault.refusal.out_of_range_index");
+                    return Applied { refused: true, refusal_expected: true };
+                }
                 if op.k == K::HmSysLoc {
                     // build_sysloc only performs in-range assignments: C12 says they are accepted
                     cx.fail(P12, "in_range_accepted", format!("SLLBI builder refused an in-range assignment: {:?} [{}]", e, op.brief()));
